@@ -225,6 +225,12 @@ fn unhex(s: &str) -> Option<Vec<u8>> {
 }
 
 fn main() {
+    // generated types may hold large arrays by value: serve on a thread with a roomy stack
+    let t = std::thread::Builder::new().stack_size(1 << 30).spawn(serve).expect("spawn server thread");
+    let _ = t.join();
+}
+
+fn serve() {
     let entries: HashMap<&'static str, Entry> = registry::entries().into_iter().collect();
     std::panic::set_hook(Box::new(|_| {}));
     let stdin = std::io::stdin();
@@ -421,6 +427,46 @@ pub struct BuildReport {
     pub rounds: u32,
 }
 
+/// Fingerprint of the repository crates the generated crate is compiled against (sources and
+/// manifests of aldrin, core, macros, codegen, parser, and the lock file). A build report is only
+/// trusted for the repository state that produced it: after any change there (a fix, a
+/// sensitivity mutant) the crate goes through `cargo build` again.
+fn run_token() -> String {
+    static FP: std::sync::OnceLock<String> = std::sync::OnceLock::new();
+    FP.get_or_init(|| {
+        fn walk(dir: &Path, out: &mut Vec<PathBuf>, depth: u32) {
+            if depth > 8 {
+                return;
+            }
+            let Ok(rd) = std::fs::read_dir(dir) else { return };
+            for e in rd.flatten() {
+                let p = e.path();
+                let name = e.file_name().to_string_lossy().to_string();
+                if p.is_dir() {
+                    if name != "target" && !name.starts_with('.') {
+                        walk(&p, out, depth + 1);
+                    }
+                } else if name.ends_with(".rs") || name.ends_with(".toml") || name.ends_with(".pest") || name.ends_with(".lock") {
+                    out.push(p);
+                }
+            }
+        }
+        let root = vcommon::repo_root();
+        let mut files = vec![root.join("Cargo.toml"), root.join("Cargo.lock")];
+        for c in ["aldrin", "core", "macros", "codegen", "parser"] {
+            walk(&root.join(c), &mut files, 0);
+        }
+        files.sort();
+        let mut acc = 0u64;
+        for f in files {
+            let content = std::fs::read(&f).unwrap_or_default();
+            acc = vcommon::mix(acc, vcommon::mix(vcommon::fingerprint(f.to_string_lossy().as_bytes()), vcommon::fingerprint(&content)));
+        }
+        format!("{acc:016x}")
+    })
+    .clone()
+}
+
 fn report_path(dir: &Path) -> PathBuf {
     dir.join("build-report.json")
 }
@@ -432,6 +478,7 @@ fn save_report(dir: &Path, r: &BuildReport) {
         "infra": r.infra,
         "seconds": r.seconds,
         "rounds": r.rounds,
+        "run": run_token(),
     });
     let tmp = dir.join("build-report.json.tmp");
     let _ = std::fs::write(&tmp, serde_json::to_string_pretty(&j).unwrap());
@@ -441,6 +488,9 @@ fn save_report(dir: &Path, r: &BuildReport) {
 fn load_report(dir: &Path) -> Option<BuildReport> {
     let text = std::fs::read_to_string(report_path(dir)).ok()?;
     let j: serde_json::Value = serde_json::from_str(&text).ok()?;
+    if j["run"].as_str() != Some(run_token().as_str()) {
+        return None;
+    }
     let mut r = BuildReport::default();
     r.binary = j["binary"].as_str().map(PathBuf::from);
     if let Some(m) = j["failed_modules"].as_object() {
@@ -571,7 +621,22 @@ fn build_rounds(dir: &Path, batch_key: &str, prep: &Prepared) -> BuildReport {
         if ok {
             let bin = work_root().join("target").join("debug").join(&crate_name);
             // keep a private copy: the shared target directory is reused by other batches
-            let copy = dir.join("oracle-server");
+            // one copy per repository state; a copy that exists was built from the same sources
+            let token = run_token();
+            let copy = dir.join(format!("oracle-server-{token}"));
+            if copy.is_file() {
+                report.binary = Some(copy);
+                break;
+            }
+            if let Ok(rd) = std::fs::read_dir(dir) {
+                for e in rd.flatten() {
+                    if e.file_name().to_string_lossy().starts_with("oracle-server-") {
+                        // stale copies (other repository states); a copy still being executed
+                        // stays alive until its process exits
+                        let _ = std::fs::remove_file(e.path());
+                    }
+                }
+            }
             match std::fs::copy(&bin, &copy) {
                 Ok(_) => report.binary = Some(copy),
                 Err(e) => report.infra = Some(format!("cannot copy {}: {e}", bin.display())),
@@ -611,6 +676,7 @@ pub struct Server {
     stdin: ChildStdin,
     stdout: BufReader<ChildStdout>,
     pub entries: usize,
+    pub last_request: String,
 }
 
 #[derive(Debug, Clone, PartialEq, Eq)]
@@ -637,10 +703,13 @@ impl Server {
         let mut line = String::new();
         stdout.read_line(&mut line).map_err(|e| e.to_string())?;
         let entries = line.trim().strip_prefix("READY ").and_then(|n| n.parse().ok()).ok_or_else(|| format!("unexpected greeting {line:?}"))?;
-        Ok(Server { child, stdin, stdout, entries })
+        Ok(Server { child, stdin, stdout, entries, last_request: String::new() })
     }
 
     fn request(&mut self, line: &str) -> Reply {
+        if std::env::var_os("VERIF_DEBUG").is_some() {
+            self.last_request = line.chars().take(400).collect();
+        }
         if writeln!(self.stdin, "{line}").is_err() || self.stdin.flush().is_err() {
             return Reply::Dead("write failed".into());
         }
